@@ -2,7 +2,7 @@
 from unit import Unit
 
 import os
-MAXLEN = int(os.environ.get('VERIF_XML_MAXLEN', '4096'))
+MAXLEN = int(os.environ.get('VERIF_XML_MAXLEN', str(1 << 47)))   # harness assumption: the text is at most 2^47 bytes (x86-64 user address space)
 EXC = "EXC_std_runtime_error"
 CADICAL = ["--sat-solver", "cadical"]   # minisat needs >11 min on parseNode at 4096 bytes; cadical 45 s
 HELPERS = """
@@ -98,8 +98,8 @@ def units():
 
 META = dict(
     level="proof",
-    level_text="Every scanner/parser function of XML.cpp (isWhite, expect x2, consume x2, consumeComment, makeString, parseString, parseIdentifier, skipWhites, parseProp, skipComment, the recursive parseNode, parseHeader, parseXML) is extracted from /repo and proved, for NUL-terminated buffers of ANY length up to 10^6 bytes with arbitrary contents and any cursor position, to keep the cursor inside [buffer, terminator], to dereference only bytes of the buffer (CBMC pointer checks on every *s, s[1], s[2], end[-1]), to terminate in every loop (loop contracts with decreases clauses; parseNode with its own contract assumed at the recursive call) and to leave either normally or with std::runtime_error in flight.",
+    level_text="Every scanner/parser function of XML.cpp (isWhite, expect x2, consume x2, consumeComment, makeString, parseString, parseIdentifier, skipWhites, parseProp, skipComment, the recursive parseNode, parseHeader, parseXML) is extracted from /repo and proved, for NUL-terminated buffers of ANY length up to 2^47 bytes (the x86-64 user address space; the only bound, a harness assumption) with arbitrary contents and any cursor position, to keep the cursor inside [buffer, terminator], to dereference only bytes of the buffer (CBMC pointer checks on every *s, s[1], s[2], end[-1]), to terminate in every loop (loop contracts with decreases clauses; parseNode with its own contract assumed at the recursive call) and to leave either normally or with std::runtime_error in flight.",
     level_note="std::string / std::map / std::vector<Node> / string streams are OPAQUE in this unit (values not modelled): the 'faithful tree' half of the statement (names, properties, contents, order) is NOT verified. isalpha/isdigit/isspace as in the C locale. readXML's file handling (fopen/ftell/fread) is assumed to hand parseXML a buffer of numBytes+1 bytes whose last byte is 0. Recursion depth (stack) is not bounded by the proof.",
-    assumptions=["opaque std containers/strings", "C-locale <cctype>", "readXML passes a NUL-terminated buffer (fread <= numBytes, ftell >= 0)", "allocation never fails"],
+    assumptions=["text buffer at most 2^47 bytes", "opaque std containers/strings", "C-locale <cctype>", "readXML passes a NUL-terminated buffer (fread <= numBytes, ftell >= 0)", "allocation never fails"],
     unverified=["faithful tree (string contents, properties, child order)", "recursion depth / stack", "Writer", "fopen/ftell/fread behaviour"],
 )
